@@ -21,6 +21,15 @@ Charsets == <<"utf8", "ia5", "vis", "prt", "num">>
 ZInts  == [i \in 1..Len(IntCons) |-> TInt(IntCons[i])]
 ZEnums == <<TEnum(1, 0, FALSE), TEnum(2, 0, FALSE), TEnum(3, 0, FALSE), TEnum(5, 0, FALSE),
             TEnum(2, 0, TRUE), TEnum(2, 1, TRUE), TEnum(3, 2, TRUE), TEnum(1, 3, TRUE)>>
+\* explicit enumeration values: declared ascending (index = position), and declared in another order (14.1: index = rank)
+ZEnumNums == <<TEnumN(<<2, 5, 9>>, 3, FALSE), TEnumN(<<5, 2, 9>>, 3, FALSE), TEnumN(<<9, 5, 2, 0>>, 4, FALSE),
+               TEnumN(<<1, 0, 3, 7>>, 2, TRUE), TEnumN(<<0, 1, 4, 6>>, 2, TRUE)>>
+\* explicitly tagged alternatives: declared in canonical tag order (index = position), and in another order (23.2: index = rank)
+ZChoiceTags == <<TChoiceT(<<I07, TBool>>, << <<2, 2>>, <<2, 5>> >>, 2, FALSE), TChoiceT(<<I07, TBool>>, << <<2, 5>>, <<2, 2>> >>, 2, FALSE),
+                 TChoiceT(<<I07, TBool, TNull>>, << <<2, 0>>, <<1, 3>>, <<3, 1>> >>, 3, FALSE),
+                 TChoiceT(<<I07, TBool, TNull, I07>>, << <<3, 1>>, <<1, 1>>, <<2, 7>>, <<2, 9>> >>, 2, TRUE)>>
+\* INTEGER (lb..MAX): semi-constrained whole numbers
+ZSemiInts == <<TInt(Semi(5)), TInt(Semi(0)), TInt(Semi(0 - 3))>>
 ZOcts  == [i \in 1..Len(Sizes) |-> TOct(Sizes[i])]
 ZBits  == [i \in 1..Len(Sizes) |-> TBits(Sizes[i])]
 ZStrs  == [i \in 1..(Len(Charsets) * 5) |-> TStr(Charsets[((i - 1) \div 5) + 1], Sizes[((i - 1) % 5) + 1])]
@@ -139,7 +148,7 @@ MixType(q, d) ==
 NMix == IF N <= 3 THEN 60 ELSE 300
 ZMix == [q \in 1..NMix |-> MixType(q + 100, 0)]
 
-Zoo == ZInts \o <<TBool, TNull>> \o ZEnums \o ZOcts \o ZBits \o ZStrs \o ZLists \o ZShapes \o ZClassShapes \o ZChoices \o ZNested \o ZAlign \o ZOpen \o ZWide \o ZSemi \o ZMix \o ZBig
+Zoo == ZInts \o <<TBool, TNull>> \o ZEnums \o ZOcts \o ZBits \o ZStrs \o ZLists \o ZShapes \o ZClassShapes \o ZChoices \o ZNested \o ZAlign \o ZOpen \o ZWide \o ZSemi \o ZEnumNums \o ZChoiceTags \o ZSemiInts \o ZMix \o ZBig
 IsBig(i) == i > Len(Zoo) - Len(ZBig)
 
 (***************************************************************************)
@@ -153,6 +162,7 @@ Dedup(s) == s
 
 IntVals(con) ==
   IF con.c = "none" THEN {0, 1, 127, 128, 255, 256, 32767, 32768, 65535, 65536, 8388607, 8388608, 1073741823}
+  ELSE IF con.c = "semi" THEN {con.lb + d : d \in {0 - 1, 0, 1, 127, 128, 255, 256, 65535, 65536, 16777215, 16777216, 1073741000}}
   ELSE LET mid == (con.lb + con.ub) \div 2
        IN {x \in {con.lb, con.lb + 1, mid, con.ub - 1, con.ub} : x >= con.lb /\ x <= con.ub}
           \cup {con.lb - 1, con.ub + 1, con.ub + 300}            \* out of root: extension form, or must be refused
@@ -223,7 +233,7 @@ SeqVals(t) ==
 Rep(t) ==
   CASE t.k = "bool"   -> <<TRUE, FALSE>>
     [] t.k = "null"   -> <<0>>
-    [] t.k = "int"    -> IF t.con.c = "none" THEN <<3, 300>>
+    [] t.k = "int"    -> IF t.con.c = "none" THEN <<3, 300>> ELSE IF t.con.c = "semi" THEN <<t.con.lb, t.con.lb + 300>>
                          ELSE IF t.con.lb = t.con.ub THEN <<t.con.lb>> ELSE <<t.con.lb + 1, t.con.ub>>
     [] t.k = "enum"   -> IF t.nroot + t.nadd = 1 THEN <<0>> ELSE <<t.nroot + t.nadd - 1, 0>>
     [] t.k \in {"oct", "bits", "str", "seqof"} ->
